@@ -692,7 +692,13 @@ def parse():
 
 
 def emit():
-    defs, info = parse()
+    try:
+        defs, info = parse()
+    except Untranslatable as ex:
+        # fail closed: never leave a stale translation behind (the proofs that depend on it must stop checking)
+        OUT.parent.mkdir(parents=True, exist_ok=True)
+        OUT.write_text("(* GENERATED by translate/budget.py: the source is NOT translatable, no definition emitted.\n   " + str(ex).replace("*)", "* )").replace("(*", "( *") + " *)\n")
+        raise
     lines = ["(* GENERATED by translate/budget.py from " + SRC_BADS + " and " + SRC_SOBOL + " on every ./check run - do not edit, never committed.",
              "   Parameters: level = optim_state['uncertainty_handling_level'], opt_<k> = options['<k>'] at that program point,",
              "   func_count = function_logger.func_count, fun_eval_start / n_samples / u0_size = locals of init_sobol. *)",
